@@ -34,7 +34,7 @@ from .errors import (
     MemoryLimitError,
     TimeLimitError,
 )
-from .regex import RegexTimeoutError
+from .regex import RegexTimeoutError, RegExpError, RegexStackOverflow
 
 # Verification hook (add-only instrumentation). It can only ever fire when the
 # environment variable MICROJS_VERIF=1 was set at import time AND a harness has
@@ -330,6 +330,13 @@ class VM:
             if type(e) is JSError or e.name not in self.globals:
                 raise
             self._handle_python_exception(e.name, e.message)
+        except RegExpError as e:
+            # A malformed pattern (literal, RegExp(), or a string pattern given
+            # to match/search) is a SyntaxError the script can catch
+            self._handle_python_exception("SyntaxError", str(e))
+        except RegexStackOverflow as e:
+            # The matcher ran out of its backtracking budget
+            self._handle_python_exception("RangeError", str(e))
 
     def _execute_opcode(self, op: OpCode, arg: Optional[int], frame: CallFrame) -> None:
         """Execute a single opcode."""
